@@ -250,6 +250,8 @@ def copt(x):
 # ----------------------------------------------------------------------------------------------
 
 BASES = ["i1", "u1", "i2", "u2", "i4", "u4", "i8", "u8", "f4", "f8", "b1", "c8", "c16"] + ["S%d" % k for k in range(1, 13)]
+SAME_SIZE = {1: ["|i1", "|u1", "|b1", "|S1"], 2: ["<i2", ">i2", "<u2", ">u2", "|S2"], 4: ["<i4", ">i4", "<u4", ">u4", "<f4", ">f4", "|S4"],
+             8: ["<i8", ">i8", "<u8", ">u8", "<f8", ">f8", "<c8", ">c8", "|S8"], 16: ["<c16", ">c16"]}
 NAMES = ["x", "y", "ra", "dec", "flux", "id", "END", "TREND", "_x", "SIZE", "END_", "xEND", "ENDx", "_END",
          "é", "naïve", "f0", "name", "N", "E", "ND", "END2", "_DTYPE", "_SIZE", "size", "end", "Legend_END",
          "α", "mag_r", "T", "e1", "BLENDED", "SENDER", "_", "__", "a" * 30]
@@ -406,6 +408,28 @@ def is_reserved(k):
     return k.lower() in ("_size", "_nrows", "_delim", "_shape", "_has_fields") or k in ("_DTYPE", "_VERSION")
 
 
+WS = ["", " ", "  ", "\t", "\n", " \t", "\r\n", "\x0b", "\x0c", "\u00a0", "\u2003"]      # what str.strip() removes (and the empty string)
+
+
+def ws_reserved_entries(r, fields, nrows, k=None):
+    """ordinary user keys that are a reserved name up to surrounding white space (any case), each with a value of the type
+    the reserved entry would have: a dtype description (same record size, other types), a delimiter, a row count, ...
+    By the statement they are user keys like any other: kept with an equal value, and without influence on the table."""
+    other = [[nm, r.choice([t for t in SAME_SIZE.get(int(ts[2:]), [ts]) if t != ts] or [ts]), sh] for nm, ts, sh in fields]
+    descr = [(nm, ts, tuple(sh)) if sh else (nm, ts) for nm, ts, sh in other]
+    vals = {"_dtype": [descr, "f8", [("q", "<i4")], descr], "_delim": [",", "\t", " ", ";"], "_size": [0, 1, nrows + 1, 10 ** 6],
+            "_nrows": [0, 1, nrows + 7], "_shape": [(1,), (nrows, 2)], "_has_fields": [True, False], "_version": ["0.1", 2]}
+    out = {}
+    for _ in range(k or r.choice([1, 1, 2, 3])):
+        name = r.choice(list(vals))
+        spelled = "".join(ch.upper() if r.random() < 0.4 else ch for ch in name) if r.random() < 0.5 else r.choice([name, name.upper()])
+        pre, post = r.choice(WS), r.choice(WS)
+        if pre == post == "":
+            pre = " "
+        out[pre + spelled + post] = r.choice(vals[name])
+    return out
+
+
 def user_hdr_ok(hdr):
     """Spec.user_key_ok: what is left of the carve-out of the ABSTRACT theorem — a key spelling _dtype otherwise than
     _DTYPE (the real code is judged on such headers all the same)"""
@@ -472,6 +496,15 @@ def table_cases(ctx, round, n_random, with_header=True, maxrows=None, layouts=Tr
                 hdr = gen_header(r, r.choice(["simple", "END", "SIZE"])) if with_header else None
                 cs.append({"dtype": fields, "rows": gen_rows(r, fields, r.choice([2, 3])), "header": repr(hdr) if with_header else None,
                            "family": "grid:%s" % b[0], "adv": False})
+        if with_header:
+            # user keys that are reserved names up to surrounding white space, with values of the reserved entry's type
+            for j in range(4):
+                fields = [[["x", "<i4", []], ["y", ">f8", []]], [["a", "<f4", [2]], ["b", "|S4", []]], gen_dtype(r, maxrow=40), gen_dtype(r, maxrow=40)][j]
+                nrows = r.choice([2, 3, 4])
+                hdr = ws_reserved_entries(r, fields, nrows, k=3)
+                if j == 0:
+                    hdr = {" _dtype": [("x", "<f4"), ("y", ">i8")], "_delim ": ",", "\t_SIZE": 77, "_Nrows\n": 5, " _Version ": "9", "keep": 1}
+                cs.append({"dtype": fields, "rows": gen_rows(r, fields, nrows), "header": repr(hdr), "family": "adv:whitespace-reserved", "adv": True})
         if layouts:
             # "any structured array": every memory layout numpy can hand to the writer, same logical rows
             for lay in LAYOUTS[1:]:
@@ -486,6 +519,8 @@ def table_cases(ctx, round, n_random, with_header=True, maxrows=None, layouts=Tr
         nrows = r.choice([1, 1, 2, 2, 3, 4, 5, 6, r.randrange(1, maxrows + 1)])
         fam = r.choice(fams) if with_header else "none"
         hdr = gen_header(r, fam)
+        if with_header and hdr is not None and r.random() < 0.3:
+            hdr.update(ws_reserved_entries(r, fields, nrows))
         c = {"dtype": fields, "rows": gen_rows(r, fields, nrows), "header": repr(hdr) if with_header else None,
              "family": "random:" + fam if with_header else "random", "adv": False}
         if layouts and r.random() < 0.3:
@@ -1571,9 +1606,6 @@ class ManyRows(IsoEntry):
 
 SD_KINDS = ["sfile_fn", "sfile_cls", "io_fn", "sfile_reuse"]
 RF_KINDS = ["recfile_fn", "recfile_cls", "recfile_reuse"]
-SAME_SIZE = {1: ["|i1", "|u1", "|b1", "|S1"], 2: ["<i2", ">i2", "<u2", ">u2", "|S2"], 4: ["<i4", ">i4", "<u4", ">u4", "<f4", ">f4", "|S4"],
-             8: ["<i8", ">i8", "<u8", ">u8", "<f8", ">f8", "<c8", ">c8", "|S8"], 16: ["<c16", ">c16"]}
-
 
 def hist_path(base, slot):
     root, ext = os.path.splitext(base)
